@@ -12,7 +12,10 @@ HEADER = ("From Coq Require Import List NArith Bool.\nFrom MoSql Require Import 
 PIECES = ["select 1", "select 'a;b'", "delimiter $$", "DELIMITER ;", " delimiter //", "delimiter  |", "Delimiter go", "\n", "\n", " ", "\t", ";", "$$", "//", "|", "go", "select 2", "x",
           "delimiter", "delimiter \n", "\r", "  \n", "$$ \n", "// x", ";\n", "\x0b", "\xa0", "delimiter ;;\n", ";;"]
 STATEMENTS = ["select a from t", "select 'x;y' from t", "select \"a;b\" from t", "select a -- c;d\n from t", "select a /* ; */ from t", "insert into t (a) values (1)", "delete from t where a = ';'",
-              "select `p;q` from t", "update t set a = 1", "select 1", "create table t (a int)"]
+              "select `p;q` from t", "update t set a = 1", "select 1", "create table t (a int)",
+              # statement kinds that contain other statements: they must end where their own text ends
+              "create procedure p() select 1", "create procedure p2(a int) begin select a; end", "begin select 1; select 2; end", "create view v as select 1", "explain select 1",
+              "with w as (select 1) select * from w", "start transaction", "commit", "drop table t", "create index i on t (a)", "set @a = 1", "declare x int default 1"]
 
 
 def run(ctx):
